@@ -504,6 +504,21 @@ class Engine(object):
         if kind == 'bool':
             self.path.heap[attr] = z3.Store(self.heap_array(attr), ref.t, self.as_bool(value))
             return
+        if kind == 'optstr':
+            self.load(ref, attr)        # declares the two maps
+            n, s = attr + '#none', attr
+            if value is None:
+                self.path.heap[n] = z3.Store(self.heap_array(n), ref.t, z3.BoolVal(True))
+                return
+            if isinstance(value, SOptStr):
+                self.path.heap[n] = z3.Store(self.heap_array(n), ref.t, value.isnone)
+                self.path.heap[s] = z3.Store(self.heap_array(s), ref.t, value.t)
+                return
+            if isinstance(value, SStr) or isinstance(value, str):
+                t = value.t if isinstance(value, SStr) else self.contract.str_const(value)
+                self.path.heap[n] = z3.Store(self.heap_array(n), ref.t, z3.BoolVal(False))
+                self.path.heap[s] = z3.Store(self.heap_array(s), ref.t, t)
+                return
         if kind == 'truth':
             t = self.truthy(value)
             self.path.heap[attr] = z3.Store(self.heap_array(attr), ref.t, z3.BoolVal(t) if isinstance(t, bool) else t)
